@@ -207,3 +207,61 @@ def canonical_labelings(n, maxparts):
             rec(prefix + [v], max(mx, v))
     rec([], -1)
     return out
+
+
+# ------------------------------------------------------------ derivatives of coefficient tables
+
+def _falling(n, k):
+    out = 1
+    for i in range(k):
+        out *= n - i
+    return out
+
+
+def poly_derivative_tensor(coeffs, coords, k):
+    '''k-th derivative tensor with respect to the LOCAL coordinates of the polynomials in a coefficient
+    table: coeffs (nfuncs, ncoeffs), coords (npoints, nd) -> (npoints, nfuncs, nd, ..., nd)'''
+    coeffs = numpy.asarray(coeffs, dtype=float)
+    coords = numpy.asarray(coords, dtype=float)
+    nd = coords.shape[1]
+    p = degree_from_ncoeffs(nd, coeffs.shape[1])
+    P = powers(nd, p)
+    out = numpy.zeros((coords.shape[0], coeffs.shape[0]) + (nd,) * k)
+    cache = {}
+    for axes in itertools.product(range(nd), repeat=k):
+        alpha = tuple(axes.count(d) for d in range(nd))
+        if alpha not in cache:
+            mon = numpy.zeros((coords.shape[0], len(P)))
+            for j, pw in enumerate(P):
+                if all(pw[d] >= alpha[d] for d in range(nd)):
+                    m = numpy.full(coords.shape[0], float(numpy.prod([_falling(pw[d], alpha[d]) for d in range(nd)])))
+                    for d in range(nd):
+                        e = pw[d] - alpha[d]
+                        if e:
+                            m = m * coords[:, d]**e
+                    mon[:, j] = m
+            cache[alpha] = mon @ coeffs.T
+        out[(slice(None), slice(None)) + axes] = cache[alpha]
+    return out
+
+
+def to_physical(D, Jinv, k):
+    'local derivative tensor (npoints, nfuncs, nd^k) -> physical, d/dx_a = sum_b Jinv[b,a] d/dxi_b'
+    for axis in range(k):
+        D = numpy.moveaxis(numpy.tensordot(D, Jinv, axes=([2 + axis], [0])), -1, 2 + axis)
+    return D
+
+
+def affine_fit(coords, x):
+    'least squares x = x0 + J coords; returns J (nx, nd) and the max residual'
+    A = numpy.concatenate([numpy.ones((len(coords), 1)), coords], axis=1)
+    sol, *_ = numpy.linalg.lstsq(A, x, rcond=None)
+    return sol[1:].T, float(abs(A @ sol - x).max())
+
+
+def element_points(nd, q):
+    '''a lattice of points strictly inside the unit simplex (hence inside the unit cube as well) that is
+    unisolvent for polynomials of total degree q'''
+    M = q + 2
+    g = [(i + .5) / M for i in range(M)]
+    return numpy.array([pt for pt in itertools.product(g, repeat=nd) if sum(pt) < 1 - 1e-12])
